@@ -1,4 +1,5 @@
 import RR.Proof.Sched
+import RR.Proof.SchedTerm
 
 /-!
 # C06 — the single-threaded runner returns only at quiescence
@@ -73,5 +74,12 @@ def witness : List Script :=
 theorem c06_witness_needs_second_pass :
     (pass witness (stInit witness)).done = true ∧ (pass witness (stInit witness)).moved = true ∧
     (stRun witness none).2.log = [0, 1, 0, 0] := by decide
+
+/-- **The runner always returns** (blocks with finite behaviour: a block whose script is
+exhausted answers EOF): within `total calls + number of blocks + 1` passes the loop leaves
+through one of its three exits — cancelled, a block's error, or a quiet pass. -/
+theorem c06_terminates (scripts : List Script) (cancelAt : Option Nat) :
+    (stRun scripts cancelAt).1 ≠ .outOfFuel :=
+  stRun_terminates scripts cancelAt
 
 end RR.Props.C06
